@@ -502,7 +502,11 @@ class DAGRunConcurrentManager(DAGRunManagerLike):
 
             await self._lock_manager.wait_for_condition(
                 node_id,
-                functools.partial(self._is_ready_to_execute, dag, node_id),
+                lambda: (
+                    self._is_ready_to_execute(dag, node_id)  # noqa: B023
+                    # A dependency that will never be executed because of an error must not block a OneOf subgraph
+                    or (dag.is_oneof and self.__has_subgraph_error(dag))
+                ),
             )
 
             if dag.is_oneof and self.__has_subgraph_error(dag):
@@ -568,8 +572,30 @@ class DAGRunConcurrentManager(DAGRunManagerLike):
         """
         return any([
             self._node_storage.exists_node_error(node_id)
-            for node_id in dag.nodes
+            for node_id in self.__get_subgraph_nodes(dag)
         ])
+
+    def __get_subgraph_nodes(self, dag: DiGraph) -> t.Set[NodeId]:
+        """
+        Get the nodes of the subgraph including the nodes of the selected branches of its switches.
+        A reduced dag has no edges from the cases to the switch node, so the nodes that are executed
+        for a switch of the subgraph are not members of the subgraph itself.
+        """
+
+        node_ids = set(dag.nodes)
+
+        for node_id in dag.nodes:
+            if not self._is_switch(node_id):
+                continue
+
+            switch_result = self._node_storage.get_switch_result(node_id)
+
+            if switch_result is not None:
+                node_ids |= self.__get_subgraph_nodes(
+                    self._get_reduced_dag(self.dag.input_node, switch_result.node_id),
+                )
+
+        return node_ids
 
     async def _run_oneof(self, dag: DiGraph, node_id: NodeId) -> t.Any:
         """
